@@ -39,7 +39,7 @@ QTIMEOUT_MS = {'quick': 30000, 'thorough': 60000}
 
 ALTER = ['none', 'payload-octet', 'lifetime', 'timestamp', 'destination', 'target-flags', 'sec-source', 'protected-header',
          'tag', 'unrelated-block', 'wrong-key', 'bib-block-flags']
-IN_SCOPE = {'attached-payload', 'payload-octet', 'lifetime', 'timestamp', 'destination', 'target-flags', 'sec-source', 'protected-header', 'tag',
+IN_SCOPE = {'second-target-number', 'bib-target-entry', 'attached-payload', 'payload-octet', 'lifetime', 'timestamp', 'destination', 'target-flags', 'sec-source', 'protected-header', 'tag',
             'wrong-key'}
 
 
@@ -52,6 +52,10 @@ def cases(tier):
     # one BIB over two targets (payload and an extension block): altering either target must fail
     for alt in (('none', 'payload-octet', 'unrelated-block') if tier == 'quick' else ALTER + ['attached-payload']):
         out.append(dict(kind='mac0', alter=alt, targets=2))
+    # the target cannot be found any more: its block number, or the BIB's target entry, now names no block
+    out.append(dict(kind='mac0', alter='second-target-number', targets=2))
+    out.append(dict(kind='mac0', alter='bib-target-entry', targets=2))
+    out.append(dict(kind='mac0', alter='bib-target-entry'))
     # the original target content moved into the COSE message's payload slot, target block rewritten
     out.append(dict(kind='mac0', alter='attached-payload'))
     # receiver side on its own: BIBs built independently (ideal tag over the independently constructed AAD) with
@@ -288,8 +292,10 @@ def harness(case, tier):
         items = list(SBuf.of(oth['data'])[0].items)
         items[0] = other_value('newother', items[0], 0, 255)
         oth['data'] = SBuf.mk([Lit(items)])
-    elif alt in ('sec-source', 'protected-header', 'tag'):
+    elif alt in ('sec-source', 'protected-header', 'tag', 'bib-target-entry'):
         bib['data'] = alter_bib(c, bib['data'], alt)
+    elif alt == 'second-target-number':
+        oth['num'] = c.sym_int('newnum', 5, 23)         # a number no block of the bundle has
     elif alt == 'attached-payload':
         bib['data'] = alter_bib(c, bib['data'], alt, attach=pay['data'])
         items = list(SBuf.of(pay['data'])[0].items)
@@ -329,6 +335,8 @@ def alter_bib(c, data, what, attach=None):
     targets, ctxid, flags, source, params, results = items
     if what == 'sec-source':
         source = [1, '//other/']
+    elif what == 'bib-target-entry':
+        targets = list(targets[:-1]) + [c.sym_int('newtarget', 5, 23)]
     else:
         res = results[0][0]             # [cose tag number, encoded message]
         msg = symcbor.loads(res[1])
